@@ -451,6 +451,44 @@ def govRefuses (c : Cfg) (s : State) (frm to : Addr) : Bool :=
   (s.inactiveQ.filter (fun p => inBound p.1)).any (fun p => depositCb c s frm to p.2) ||
   (s.activeQ.filter (fun p => inBound p.1)).any (fun p => voteCb c s frm to p.2)
 
+/-! ### the gov callbacks as regenerated check lists
+
+`Gen.C14.govDepositChecks` / `govVoteChecks` list what `DepositPeriodCallback` / `VotePeriodCallback` refuse, in source order
+(`deposit-callback`: the vote callback first runs the deposit callback).  `depositCbP` / `voteCbP` / `govRefusesP` INTERPRET the
+lists (the driver runs them); `Props.C14.gov_program_as_modelled` proves them equal to `govRefuses`. -/
+inductive GChk where
+  | proposerFrom | proposerTo | depositFrom | depositTo | voteFrom | voteTo | depositCallback | unknown
+  deriving Repr, DecidableEq
+
+def parseG (chk : String) : GChk :=
+  ([("proposer-from", GChk.proposerFrom), ("proposer-to", .proposerTo), ("deposit-from", .depositFrom),
+    ("deposit-to", .depositTo), ("vote-from", .voteFrom), ("vote-to", .voteTo),
+    ("deposit-callback", .depositCallback)].lookup chk).getD .unknown
+
+def govCheck (s : State) (frm to : Addr) (id : Nat) (pr : Proposal) : GChk → Bool
+  | .proposerFrom => pr.proposer == frm
+  | .proposerTo => pr.proposer == to
+  | .depositFrom => (get s.deposits (id, frm)).isSome
+  | .depositTo => (get s.deposits (id, to)).isSome
+  | .voteFrom => s.votes.contains (id, frm)
+  | .voteTo => s.votes.contains (id, to)
+  | _ => false
+
+def depositCbP (dep : List GChk) (s : State) (frm to : Addr) (id : Nat) : Bool :=
+  match get s.props id with
+  | none => true
+  | some pr => dep.any (govCheck s frm to id pr)
+
+def voteCbP (dep vote : List GChk) (s : State) (frm to : Addr) (id : Nat) : Bool :=
+  match get s.props id with
+  | none => true
+  | some pr => vote.any (fun chk => if chk = .depositCallback then dep.any (govCheck s frm to id pr) else govCheck s frm to id pr chk)
+
+def govRefusesP (c : Cfg) (dep vote : List GChk) (s : State) (frm to : Addr) : Bool :=
+  let inBound (t : Time) : Bool := c.govScanAll || t ≤ s.now
+  (s.inactiveQ.filter (fun p => inBound p.1)).any (fun p => depositCbP dep s frm to p.2) ||
+  (s.activeQ.filter (fun p => inBound p.1)).any (fun p => voteCbP dep vote s frm to p.2)
+
 /-- `DistrStakingMigrate.Validate` -/
 def stakingValidate (c : Cfg) (s : State) (frm to : Addr) : Option MErr :=
   if c.checkOperator && (s.vals.contains frm || s.vals.contains to) then some .validator
@@ -751,7 +789,8 @@ def handlerValidate (c : Cfg) (s : State) (frm to : Addr) (ctor : String) : Opti
   let t := handlerType ctor
   if bodyNil (t ++ ".Validate") then none
   else if t == "DistrStakingMigrate" then stakingValidateP Gen.C14.stakingValidateProgram s frm to
-  else if t == "GovMigrate" then (if govRefuses c s frm to then some .gov else none)
+  else if t == "GovMigrate" then
+    (if govRefusesP c (Gen.C14.govDepositChecks.map parseG) (Gen.C14.govVoteChecks.map parseG) s frm to then some .gov else none)
   else none
 
 /-- `Execute` of one registered handler -/
